@@ -72,8 +72,9 @@ TIES = {
     "C02": T(u(CONNECT_READ, ["x224::x224_connection_pdu"]), ["x224::x224_connection_pdu", "x224::rdp_neg_req"],
              ["x224::NegotiationType", "x224::Protocols", "x224::MessageType"]),
     # every emitted PDU well formed: all layouts the client writes, with their value expressions
-    "C04": T(u(FRAMING, CONNECT_WRITE, GLOBAL_WRITE), u(CONNECT_WRITE, GLOBAL_WRITE, ["tpkt::tpkt_header"]),
-             u(CONNECT_ENUMS, GLOBAL_ENUMS, ["sec::InfoFlag", "global::PointerFlag"])),
+    # (network level authentication: the NTLM messages the client writes / reads, LayoutsNtlmAuth.v)
+    "C04": T(u(FRAMING, CONNECT_WRITE, GLOBAL_WRITE, NTLM[:5]), u(CONNECT_WRITE, GLOBAL_WRITE, ["tpkt::tpkt_header"], NTLM[:5]),
+             u(CONNECT_ENUMS, GLOBAL_ENUMS, ["sec::InfoFlag", "global::PointerFlag"], NTLM_ENUMS)),
     # hostile bytes during connect
     "C05": T(CONNECT_READ, [], CONNECT_ENUMS),
     # hostile bytes during the session
